@@ -13,6 +13,8 @@ OBLIGATIONS = [
        tiers=("quick", "thorough"), timeout=900, gen=gen_type_tables, object_bits=16, desc="cold/warm/reordered lookups vs raw scan, built-in types %d mod %d x all classes" % (c, NCH))
     for c in range(NCH)
 ]
+OBLIGATIONS += [Ob("runtime_type" + ("" if cfg == "default" else "." + cfg), "C08/runtime_type.c", replace=["Type.c"], config=cfg, unwind=40, unwindset=US + ["Tuple_Len.0:8", "memcpy.0:8", "strlen.0:12"], checks=["bounds", "pointer"],
+                   tiers=("quick", "thorough"), timeout=900, object_bits=14, desc="run-time type built by Type_New (3 instances, symbolic order), all lookups (%s configuration)" % cfg) for cfg in ("default", "nocache", "ndebug")]
 LEVEL_TEXT = ("Symbolic execution of the real dispatcher for EVERY (built-in type, class) pair declared in the current Cello.h (tables regenerated per run): cold, warm and "
               "re-ordered lookups against an independent raw scan of the type record; run-time types and error paths in separate obligations.")
 LEVEL_NOTE = "Trusted: cbmc; the raw-scan oracle relies on the record layout written by the Cello() macro. Concurrent first lookups are not explored (C13)."
